@@ -624,10 +624,9 @@ def _km_wrapper(orig):
                             al, cr = along_cross(ex, ey, mxy, wd)
                             ref = km_oracle(P, sv, al, cr, res_)
                             scale = float(ref.max()) or 1.0
-                            if 0.0 < scale < 1e-290:
-                                scale = 2.3e-308   # a raster in the subnormal range carries no relative accuracy
                             half = max(abs(t) for t in dom)
-                            d = np.abs(np.asarray(ffm, dtype=float) - ref)
+                            # (absolute allowance for intermediate products quantised in the subnormal range, as in checks/c19)
+                            d = np.clip(np.abs(np.asarray(ffm, dtype=float) - ref) - 64 * 4.94e-324 * max(1.0, res_ * res_), 0.0, None)
                             d[np.abs(al) < 1e-9 * half] = 0
                             rel = float(np.nanmax(d) / scale)
                             if not rel <= 1e-10 or not np.all(np.isfinite(ffm)):
